@@ -228,9 +228,10 @@ impl Name {
         // which means it is sound to convert it unchecked as a valid label is ASCII
         let label_as_str = unsafe { std::str::from_utf8_unchecked(label) };
 
+        // `new_len` is the text length; the wire form is one octet longer (the terminating zero)
         let new_len = self.name.len() + label_as_str.len() + 1;
-        if new_len > DOMAIN_NAME_MAX_LENGTH {
-            return Err(Error::DomainNameTooLong(new_len));
+        if new_len >= DOMAIN_NAME_MAX_LENGTH {
+            return Err(Error::DomainNameTooLong(new_len + 1));
         }
 
         self.name.push_str(label_as_str);
